@@ -8,7 +8,7 @@ From Coq Require Import List Arith Bool.
 From M Require Import Base Flat Hsm HsmSpec.
 From P Require Import HsmForest HsmResolve HsmReach HsmInit.
 From M Require HReent.
-From P Require HReentInv HsmQueueP.
+From P Require HReentInv HsmQueueP HsmPar.
 From M Require Queue HsmQueueIO.
 Import ListNotations.
 
@@ -132,6 +132,62 @@ Theorem C02_queued_invariants :
     HsmQueueP.all_good hm w'.
 Proof. exact HsmQueueP.hq_invariants. Qed.
 Print Assumptions C02_queued_invariants.
+
+(* ---------- the hypothesis NOK of C02_balanced / C02_enter_only_inactive is an invariant ---------- *)
+(* [HsmPar.full_par_defs] (decidable): every state definition whose initial list names several children names all
+   its children - i.e. parallel states are entered with all their regions, the complement of the class of
+   KF-C02-2.  For such machines, in every configuration reached from a registered one that satisfies
+   [HsmPar.pfull] (a node with several active children has all its registered children active; the configuration
+   add_model creates does: C02_initial_config_pfull), every transition resolution - any declaring scope, any
+   registered destination - meets narrow_ok, so C02_balanced, C02_enter_only_inactive, C03_exit_set... apply to
+   every transition of every history. *)
+Theorem C02_narrow_ok_invariant :
+  forall (hm : hmachine) (f f' : forest) (sc dst : path) (dd : sdefn) (cur : forest) (root rest : path),
+    wf_defs hm = true -> HsmPar.full_par_defs hm = true -> reach hm f f' -> reg hm f -> HsmPar.pfull hm f ->
+    find_def (scope_children hm sc) dst = Some dd -> sub f' sc = Some cur -> split_active f' sc dst = (root, rest) ->
+    narrow_ok f' sc root rest.
+Proof. exact HsmPar.reach_narrow_ok. Qed.
+Print Assumptions C02_narrow_ok_invariant.
+
+Theorem C02_initial_config_pfull :
+  forall (hm : hmachine) (ini : path) (d : sdefn),
+    HsmPar.full_par_defs hm = true -> find_def (hm_states hm) ini = Some d ->
+    HsmPar.pfull hm (chain_tree ini (initial_tree def_depth_bound d)).
+Proof. exact HsmPar.initial_config_pfull. Qed.
+Print Assumptions C02_initial_config_pfull.
+
+(* Balance along whole histories.  E = "the states whose on_enter has fired without a later on_exit"; [reachE]
+   threads it through the transition resolutions of a history (each removes the states it exits and adds the
+   states it enters - the on_exit / on_enter callbacks an executed transition runs are exactly those lists,
+   C03_transition_trace; every event is a sequence of resolutions, C02_only_resolutions / reach_reachE).  If E
+   is the set of active states with all their ancestors before, it is afterwards - for every history. *)
+Theorem C02_history_balanced :
+  forall (hm : hmachine) (f : forest) (E : path -> Prop) (f' : forest) (E' : path -> Prop),
+    wf_defs hm = true -> HsmPar.full_par_defs hm = true ->
+    HsmPar.reachE hm f E f' E' -> uniq f = true -> reg hm f -> HsmPar.pfull hm f ->
+    HsmPar.coh E f -> HsmPar.coh E' f'.
+Proof. exact HsmPar.history_balanced. Qed.
+Print Assumptions C02_history_balanced.
+
+Theorem C02_every_event_threads_E :
+  forall (hm : hmachine) (ev : env) (c : ctx) (e : event) (p : nat) (f : forest) tr f' res (E : path -> Prop),
+    Hsm.trigger_event hm ev c e p f = (tr, f', res) -> exists E', HsmPar.reachE hm f E f' E'.
+Proof. intros. eapply HsmPar.reach_reachE. eapply trigger_event_reach; eauto. Qed.
+Print Assumptions C02_every_event_threads_E.
+
+(* the delineation is sharp: the machine of KF-C02-2 (P with children A, B, C and initial [A; B]) fails
+   full_par_defs, and its transition P_A -> P_C exits the never-entered C; with initial [A; B; C] the
+   hypotheses hold *)
+Example C02_full_par_delineates :
+  let mk ini := mkHM [SDef 1 [] [] [] false None ini []
+                        [SDef 2 [] [] [] false None [] [] []; SDef 3 [] [] [] false None [] [] [];
+                         SDef 4 [] [] [] false None [] [] []]] [] [] [] [] [] [] [] false false in
+  HsmPar.full_par_defs (mk [2; 3]) = false /\ HsmPar.full_par_defs (mk [2; 3; 4]) = true /\
+  match resolve [Node 1 [Node 2 []; Node 3 []]] [] [1; 4] (SDef 4 [] [] [] false None [] [] []) with
+  | Some r => r_exits r = [[1; 4]]
+  | None => False
+  end.
+Proof. vm_compute. repeat split; reflexivity. Qed.
 
 (* non-vacuity: a transition between two regions' states in a parallel state *)
 Example C02_example :
